@@ -288,6 +288,15 @@ def tasks(tier, seed):
             out.append(Task(MOD, "one_write", dict(tv=tv, ts=ts, tmin=tmin, tmax=tmax, tb=tb,
                                                    tsur=tsur, g="sym"), model=model,
                             witness_every=wit, name="one_write_symbolic_g"))
+    # float demands once more on the 1/4 grid (pure integer arithmetic): code that mixes int() truncation with
+    # floor division is decided in milliseconds there, while over the reals it runs into the mixed Int/Real wall
+    for cfg in _configs():
+        tv, ts, tmin, tmax, tb, tsur = cfg
+        if tv != "float":
+            continue
+        for g in ((2,) if tier == "quick" else (2, 3)):
+            out.append(Task(MOD, "one_write", dict(tv=tv, ts=ts, tmin=tmin, tmax=tmax, tb=tb, tsur=tsur, g=g),
+                            model="G4", witness_every=wit * 2, name="one_write_float_on_grid"))
     # aliases are the same class: one all-int and one all-float configuration each
     for cls in ("Limiter", "Coarser"):
         for cfg in (HIST_CONFIGS[0], HIST_CONFIGS[2]):
